@@ -1,7 +1,975 @@
 //! Model-backed runs for the lincode scheme: `run(ctx, prop)` is called for every property; handle the
 //! properties this scheme takes part in and return immediately for the others.
+//!
+//! Instances: univariate Ligero, multilinear Ligero, multilinear Brakedown (aliases of generic.rs),
+//! honest transcripts over a ladder of sizes, with and without the well-formedness check, two
+//! security levels; the Lean model (`lincode.*` ops) decides every mutated transcript as well.
+#[path = "lincode.rs"]
+mod lincode;
+
+use crate::common::*;
 use crate::Ctx;
+use ark_bls12_381::Fr;
+use ark_crypto_primitives::merkle_tree::Path;
+use ark_ff::{Field, UniformRand, Zero};
+use ark_poly_commit::linear_codes::{LinCodeParametersInfo, LinearEncode};
+use ark_serialize::{CanonicalSerialize, Compress};
+use lincode::*;
 
 pub fn run(ctx: &mut Ctx, prop: &str) {
-    let _ = (ctx, prop);
+    match prop {
+        "C01" => all(ctx, prop, c01_case),
+        "C02" => all(ctx, prop, c02_case),
+        "C03" => all(ctx, prop, c03_case),
+        "C08" => all(ctx, prop, c08_case),
+        "C10" => all(ctx, prop, c10_case),
+        "C19" => all(ctx, prop, c19_case),
+        _ => {}
+    }
+}
+
+#[derive(Clone, Copy, PartialEq, Eq, Debug)]
+enum Which {
+    Uni,
+    Ml,
+    Bd,
+}
+
+/// one case: the sizes of its polynomials (coefficient counts, or numbers of variables), the
+/// well-formedness flag, the security parameter and the inverse rate
+#[derive(Clone, Debug)]
+struct Spec {
+    sizes: Vec<usize>,
+    wf: bool,
+    sec: usize,
+    rho_inv: usize,
+    /// 0 random, 1 zero polynomial, 2 constant, 3 sparse (mostly zero)
+    kind: usize,
+}
+
+fn specs(which: Which, prop: &str, thorough: bool) -> Vec<Spec> {
+    let mut v = vec![];
+    let light = prop != "C01" && prop != "C19" && prop != "C08";
+    match which {
+        Which::Uni => {
+            // number of coefficients: 0 = the zero polynomial with an empty coefficient vector
+            let ladder: Vec<usize> = if thorough {
+                let mut l: Vec<usize> = (0..=66).collect();
+                l.extend([96, 127, 128, 129, 200, 255, 256, 257, 300, 400, 511, 512, 513]);
+                l
+            } else if light {
+                vec![0, 1, 2, 3, 5, 8, 17, 33, 41, 65]
+            } else {
+                (0..=65).collect()
+            };
+            for (i, n) in ladder.iter().enumerate() {
+                let (sec, rho) = [(128, 4), (32, 2), (80, 8), (128, 2)][i % 4];
+                v.push(Spec { sizes: vec![*n], wf: i % 2 == 0, sec, rho_inv: rho, kind: if *n == 0 { 1 } else { 0 } });
+                if thorough || !light || i % 3 == 0 {
+                    v.push(Spec { sizes: vec![*n], wf: i % 2 == 1, sec, rho_inv: rho, kind: if *n == 0 { 1 } else if *n == 1 { 2 } else { 0 } });
+                }
+            }
+            v.push(Spec { sizes: vec![7, 7], wf: true, sec: 128, rho_inv: 4, kind: 1 });
+            v.push(Spec { sizes: vec![9], wf: false, sec: 128, rho_inv: 4, kind: 3 });
+            v.push(Spec { sizes: vec![12, 3, 40], wf: true, sec: 128, rho_inv: 4, kind: 0 });
+            v.push(Spec { sizes: vec![20, 20], wf: false, sec: 32, rho_inv: 2, kind: 0 });
+            v.push(Spec { sizes: vec![1, 64, 0, 5], wf: true, sec: 32, rho_inv: 2, kind: 0 });
+        }
+        Which::Ml | Which::Bd => {
+            let top = if thorough { 9 } else if light { 6 } else { 8 };
+            for nv in 2..=top {
+                for (j, (wf, sec)) in [(true, 128), (false, 128), (true, 32), (false, 32)].iter().enumerate() {
+                    if light && !thorough && j >= 2 && nv % 2 == 0 {
+                        continue;
+                    }
+                    v.push(Spec { sizes: vec![nv], wf: *wf, sec: *sec, rho_inv: if which == Which::Ml { [2, 4][j % 2] } else { 0 }, kind: 0 });
+                }
+            }
+            v.push(Spec { sizes: vec![3], wf: true, sec: 128, rho_inv: 2, kind: 1 });
+            v.push(Spec { sizes: vec![4], wf: false, sec: 128, rho_inv: 2, kind: 2 });
+            v.push(Spec { sizes: vec![5], wf: true, sec: 128, rho_inv: 2, kind: 3 });
+            v.push(Spec { sizes: vec![4, 4, 4], wf: true, sec: 128, rho_inv: 2, kind: 0 });
+            v.push(Spec { sizes: vec![3, 3], wf: false, sec: 32, rho_inv: 2, kind: 0 });
+        }
+    }
+    v
+}
+
+fn all(ctx: &mut Ctx, prop: &str, f: fn(&mut Ctx, &str, &mut Rng, &Spec, Which)) {
+    for which in [Which::Uni, Which::Ml, Which::Bd] {
+        let name = match which {
+            Which::Uni => Uni::NAME,
+            Which::Ml => Ml::NAME,
+            Which::Bd => Bd::NAME,
+        };
+        let list = specs(which, prop, ctx.thorough);
+        for (i, spec) in list.iter().enumerate() {
+            let id = format!("{}/{}/{}", prop, name, i);
+            if !ctx.selected(&id) {
+                continue;
+            }
+            let mut rng = rng_for(ctx.seed, &format!("{}/{}", prop, name), i as u64);
+            f(ctx, &id, &mut rng, spec, which);
+            if ctx.ses.pending.len() >= 40 {
+                ctx.flush_model(&format!("{}-{}-{}", prop, name, i));
+            }
+        }
+        ctx.flush_model(&format!("{}-{}", prop, name));
+    }
+}
+
+macro_rules! dispatch {
+    ($which:expr, $f:ident, $($arg:expr),*) => {
+        match $which {
+            Which::Uni => $f::<Uni>($($arg),*),
+            Which::Ml => $f::<Ml>($($arg),*),
+            Which::Bd => $f::<Bd>($($arg),*),
+        }
+    };
+}
+
+fn c01_case(ctx: &mut Ctx, id: &str, rng: &mut Rng, spec: &Spec, w: Which) {
+    dispatch!(w, c01, ctx, id, rng, spec)
+}
+fn c02_case(ctx: &mut Ctx, id: &str, rng: &mut Rng, spec: &Spec, w: Which) {
+    dispatch!(w, c02, ctx, id, rng, spec)
+}
+fn c03_case(ctx: &mut Ctx, id: &str, rng: &mut Rng, spec: &Spec, w: Which) {
+    dispatch!(w, c03, ctx, id, rng, spec)
+}
+fn c08_case(ctx: &mut Ctx, id: &str, rng: &mut Rng, spec: &Spec, w: Which) {
+    dispatch!(w, c08, ctx, id, rng, spec)
+}
+fn c10_case(ctx: &mut Ctx, id: &str, rng: &mut Rng, spec: &Spec, w: Which) {
+    dispatch!(w, c10, ctx, id, rng, spec)
+}
+fn c19_case(ctx: &mut Ctx, id: &str, rng: &mut Rng, spec: &Spec, w: Which) {
+    dispatch!(w, c19, ctx, id, rng, spec)
+}
+
+// ------------------------------------------------------------------------------------------------
+// generators
+// ------------------------------------------------------------------------------------------------
+
+fn gen_vec<S: Lc>(rng: &mut Rng, size: usize, kind: usize) -> Vec<Fr> {
+    let len = if S::KIND == 0 { size } else { 1usize << size };
+    match kind {
+        1 => {
+            if S::KIND == 0 {
+                vec![]
+            } else {
+                vec![Fr::zero(); len]
+            }
+        }
+        2 => {
+            let c = rand_nonzero(rng);
+            if S::KIND == 0 {
+                vec![c]
+            } else {
+                vec![c; len]
+            }
+        }
+        3 => (0..len).map(|i| if i % 5 == 2 || i + 1 == len { rand_nonzero(rng) } else { Fr::zero() }).collect(),
+        _ => {
+            let mut v: Vec<Fr> = (0..len).map(|_| Fr::rand(rng)).collect();
+            if S::KIND == 0 && len > 0 {
+                // the leading coefficient is non-zero, so the library keeps exactly `len` coefficients
+                let last = len - 1;
+                v[last] = rand_nonzero(rng);
+            }
+            v
+        }
+    }
+}
+
+fn gen_point<S: Lc>(rng: &mut Rng, spec: &Spec) -> Vec<Fr> {
+    if S::KIND == 0 {
+        vec![Fr::rand(rng)]
+    } else {
+        (0..spec.sizes[0]).map(|_| Fr::rand(rng)).collect()
+    }
+}
+
+struct Case<S: Lc> {
+    run: Run<S>,
+    spec: Spec,
+}
+
+fn replay<S: Lc>(id: &str, seed: u64, spec: &Spec, extra: &str) -> String {
+    format!(
+        "# scheme: {}\n# case: {}\n# seed: {}\n# spec: {:?}\n# {}\n# rerun: .build/cargo/debug/pcv-harness {} --seed {} --only {}\n",
+        S::NAME,
+        id,
+        seed,
+        spec,
+        extra,
+        id.split('/').next().unwrap_or(""),
+        seed,
+        id
+    )
+}
+
+fn new_case<S: Lc>(ctx: &mut Ctx, id: &str, rng: &mut Rng, spec: &Spec) -> Option<Case<S>> {
+    let pp = match guarded(|| S::params(rng, spec.sizes[0], spec.wf, spec.sec, spec.rho_inv)) {
+        Ok(p) => p,
+        Err(e) => {
+            ctx.rep.expect_fail(id, &format!("{}/in-domain-setup-refused", S::NAME), &format!("parameter construction aborted: {}", e), replay::<S>(id, ctx.seed, spec, &e));
+            return None;
+        }
+    };
+    let vecs: Vec<Vec<Fr>> = spec.sizes.iter().enumerate().map(|(i, s)| gen_vec::<S>(rng, *s, if i == 0 { spec.kind } else { 0 })).collect();
+    let point = gen_point::<S>(rng, spec);
+    let pre = seeded_sponge(rng);
+    match honest::<S>(&pp, &vecs, &point, &pre) {
+        Ok(run) => {
+            ctx.rep.count(&format!("{}/wf-{}", S::NAME, spec.wf));
+            ctx.rep.count(&format!("{}/sec-{}", S::NAME, spec.sec));
+            ctx.rep.count(&format!("{}/polys-{}", S::NAME, spec.sizes.len()));
+            ctx.rep.count(&format!("{}/kind-{}", S::NAME, ["random", "zero", "constant", "sparse"][spec.kind.min(3)]));
+            Some(Case { run, spec: spec.clone() })
+        }
+        Err(e) => {
+            ctx.rep.expect_fail(id, &format!("{}/in-domain-refused", S::NAME), &format!("commit/open refused an in-domain request: {}", e), replay::<S>(id, ctx.seed, spec, &e));
+            None
+        }
+    }
+}
+
+/// run the real `check`, queue the model's decision, return the outcome
+fn decide<S: Lc>(ctx: &mut Ctx, id: &str, pp: &S::Params, comms: &[MComm], point: &[Fr], values: &[Fr], proof: &[MProof], pre: &LogSponge) -> Out {
+    let (out, log) = check::<S>(pp, comms, point, values, proof, pre);
+    ask_check::<S>(ctx, id, pp, comms, point, values, proof, &log, &out);
+    ctx.rep.count(&format!(
+        "{}/outcome-{}",
+        S::NAME,
+        match &out {
+            Out::Accept => "accept".to_string(),
+            Out::Reject => "ok-false".to_string(),
+            Out::Refuse(k) => format!("refuse-{}", k.split(':').next().unwrap_or("")),
+        }
+    ));
+    out
+}
+
+// ------------------------------------------------------------------------------------------------
+// C01
+// ------------------------------------------------------------------------------------------------
+
+fn c01<S: Lc>(ctx: &mut Ctx, id: &str, rng: &mut Rng, spec: &Spec) {
+    let c = match new_case::<S>(ctx, id, rng, spec) {
+        Some(c) => c,
+        None => return,
+    };
+    let run = &c.run;
+    let out = decide::<S>(ctx, &format!("{}/check", id), &run.pp, &run.comms, &run.point, &run.values, &run.proof, &run.pre);
+    if !out.accepted() {
+        ctx.rep.expect_fail(id, &format!("{}/honest-rejected", S::NAME), &format!("honest proof not accepted: {:?}", out), replay::<S>(id, ctx.seed, spec, &describe(run)));
+    }
+    ask_open::<S>(ctx, id, run);
+    for (i, (cm, st)) in run.comms.iter().zip(&run.states).enumerate() {
+        let (n, m) = (cm.metadata.n_rows, cm.metadata.n_cols);
+        ask_tensor::<S>(ctx, &format!("{}/{}", id, i), &run.point, m, n);
+        // direct ties between the real code and the statements of the theorems
+        if let Ok((a, b)) = tensor::<S>(&run.point, m, n) {
+            let p = &run.proof[i];
+            if inner(&p.opening.v, &a) != run.values[i] {
+                ctx.rep.expect_fail(id, &format!("{}/tensor-eval-mismatch", S::NAME), "<v, a> differs from the polynomial's evaluation", replay::<S>(id, ctx.seed, spec, &describe(run)));
+            }
+            let bm: Vec<Fr> = (0..m).map(|j| (0..n).map(|r| b[r] * st.mat.entries[r][j]).sum()).collect();
+            if bm != p.opening.v {
+                ctx.rep.expect_fail(id, &format!("{}/v-not-b-times-M", S::NAME), "opening.v differs from b*M", replay::<S>(id, ctx.seed, spec, &describe(run)));
+            }
+            // the flat coefficient vector is the row-major matrix, zero padded
+            let flat: Vec<Fr> = st.mat.entries.iter().flatten().cloned().collect();
+            let mut want = S::L::poly_to_vec(run.polys[i].polynomial());
+            if want.is_empty() {
+                want.push(Fr::zero());
+            }
+            want.resize(n * m, Fr::zero());
+            if flat != want || st.mat.n != n || st.mat.m != m {
+                ctx.rep.expect_fail(id, &format!("{}/matrix-not-row-major", S::NAME), "state matrix differs from the zero-padded row-major coefficient matrix", replay::<S>(id, ctx.seed, spec, &describe(run)));
+            }
+        }
+    }
+    ctx.rep.case(&describe(run), Some(format!("{}/{:?}/{}/{}/{}", S::NAME, spec.sizes, spec.wf, spec.sec, spec.kind)));
+}
+
+// ------------------------------------------------------------------------------------------------
+// C02
+// ------------------------------------------------------------------------------------------------
+
+fn false_accept<S: Lc>(ctx: &mut Ctx, id: &str, spec: &Spec, sig: &str, what: &str, out: &Out, claim_false: bool) {
+    if claim_false && out.accepted() {
+        ctx.rep.expect_fail(id, &format!("lincode/{}/{}", sig, S::NAME), what, replay::<S>(id, ctx.seed, spec, what));
+    }
+}
+
+fn c02<S: Lc>(ctx: &mut Ctx, id: &str, rng: &mut Rng, spec: &Spec) {
+    let c = match new_case::<S>(ctx, id, rng, spec) {
+        Some(c) => c,
+        None => return,
+    };
+    let run = &c.run;
+    let k = run.values.len();
+    // value + delta at every position
+    for j in 0..k {
+        let mut vals = run.values.clone();
+        vals[j] += rand_nonzero(rng);
+        let cid = format!("{}/value{}", id, j);
+        let out = decide::<S>(ctx, &cid, &run.pp, &run.comms, &run.point, &vals, &run.proof, &run.pre);
+        false_accept::<S>(ctx, &cid, spec, "false-claim-accepted/value", "honest proof accepted for value + delta", &out, true);
+        if out != Out::Reject && j == 0 {
+            // the property's stronger form: the value test is direct, the answer is Ok(false)
+            ctx.rep.count(&format!("{}/value-refused-not-false", S::NAME));
+        }
+        ctx.rep.case(&format!("{} value+delta at {}", describe(run), j), Some(format!("{}/value/{:?}/{}", S::NAME, spec.sizes, spec.wf)));
+    }
+    // another point: true values there, and the old values
+    let point2: Vec<Fr> = run.point.iter().map(|x| *x + rand_nonzero(rng)).collect();
+    let pt2 = S::point(&point2);
+    use ark_poly::Polynomial;
+    let vals2: Vec<Fr> = run.polys.iter().map(|p| p.polynomial().evaluate(&pt2)).collect();
+    let cid = format!("{}/point-true", id);
+    let _ = decide::<S>(ctx, &cid, &run.pp, &run.comms, &point2, &vals2, &run.proof, &run.pre);
+    let cid = format!("{}/point-old-values", id);
+    let out = decide::<S>(ctx, &cid, &run.pp, &run.comms, &point2, &run.values, &run.proof, &run.pre);
+    false_accept::<S>(ctx, &cid, spec, "false-claim-accepted/point", "proof for z accepted at z' with the values at z", &out, vals2 != run.values);
+    ctx.rep.case(&format!("{} other point", describe(run)), Some(format!("{}/point/{:?}/{}", S::NAME, spec.sizes, spec.wf)));
+    // commitment of another polynomial of the same shape
+    let mut vecs2 = run.vecs.clone();
+    let j = range(rng, 0, k - 1);
+    vecs2[j] = gen_vec::<S>(rng, spec.sizes[j], 0);
+    if let Ok(run2) = honest::<S>(&run.pp, &vecs2, &run.point, &run.pre) {
+        let mut comms = run.comms.clone();
+        comms[j] = run2.comms[j].clone();
+        let cid = format!("{}/comm-other-poly", id);
+        let out = decide::<S>(ctx, &cid, &run.pp, &comms, &run.point, &run.values, &run.proof, &run.pre);
+        false_accept::<S>(ctx, &cid, spec, "false-claim-accepted/commitment", "proof for p accepted against a commitment to q with p(z) as value", &out, run2.values[j] != run.values[j]);
+        let cid = format!("{}/comm-other-poly-its-value", id);
+        let mut vals = run.values.clone();
+        vals[j] = run2.values[j];
+        let out = decide::<S>(ctx, &cid, &run.pp, &comms, &run.point, &vals, &run.proof, &run.pre);
+        // a true claim about q, but the proof is for p: accepted only if the trees coincide
+        if out.accepted() && comms[j].root != run.comms[j].root {
+            ctx.rep.expect_fail(&cid, &format!("lincode/proof-for-other-commitment-accepted/{}", S::NAME), "proof for p accepted for a different commitment", replay::<S>(&cid, ctx.seed, spec, ""));
+        }
+        ctx.rep.case(&format!("{} other commitment at {}", describe(run), j), Some(format!("{}/comm/{:?}/{}", S::NAME, spec.sizes, spec.wf)));
+    }
+}
+
+// ------------------------------------------------------------------------------------------------
+// C03 / C10 mutation catalogue
+// ------------------------------------------------------------------------------------------------
+
+#[derive(Clone, Copy, Debug, PartialEq, Eq)]
+enum Mu {
+    VShort,
+    VLong,
+    VEntry,
+    VEmpty,
+    WfShort,
+    WfLong,
+    WfAbsent,
+    WfToggleWhenOff,
+    WfEntry,
+    ColsRepeat,
+    ColsShift,
+    ColsFewer,
+    ColsMore,
+    ColsNone,
+    ColEntry,
+    ColShorter,
+    PathsFewer,
+    PathsMore,
+    PathsNone,
+    LeafIndex,
+    LeafSibling,
+    AuthSibling,
+    AuthShorter,
+    PathOtherLeaf,
+    PathOtherLeafReindexed,
+    PathOtherTree,
+    PathsSwapped,
+    ProofsFewer,
+    ProofsMore,
+}
+const SHAPE: &[Mu] = &[
+    Mu::VShort, Mu::VLong, Mu::VEmpty, Mu::WfShort, Mu::WfLong, Mu::WfAbsent, Mu::WfToggleWhenOff, Mu::ColsRepeat, Mu::ColsShift,
+    Mu::ColsFewer, Mu::ColsMore, Mu::ColsNone, Mu::ColShorter, Mu::PathsFewer, Mu::PathsMore, Mu::PathsNone, Mu::ProofsFewer, Mu::ProofsMore,
+];
+const PATHS: &[Mu] = &[Mu::LeafIndex, Mu::LeafSibling, Mu::AuthSibling, Mu::AuthShorter, Mu::PathOtherLeaf, Mu::PathOtherLeafReindexed, Mu::PathOtherTree, Mu::PathsSwapped];
+const ENTRIES: &[Mu] = &[Mu::VEntry, Mu::WfEntry, Mu::ColEntry];
+
+fn flip(d: &mut Vec<u8>) {
+    if d.is_empty() {
+        d.push(1);
+    } else {
+        d[0] ^= 1;
+    }
+}
+
+/// Apply one mutation to polynomial `k`'s proof. `other` = an honest run on other polynomials of the
+/// same shapes (for paths from another tree). None = not applicable to this transcript.
+fn mutate<S: Lc>(rng: &mut Rng, run: &Run<S>, other: Option<&Run<S>>, k: usize, m: Mu) -> Option<Vec<MProof>> {
+    let mut proof = run.proof.clone();
+    let wf_on = run.pp.check_well_formedness();
+    let n_ext = run.comms[k].metadata.n_ext_cols;
+    {
+        let p = &mut proof[k];
+        let t = p.opening.columns.len();
+        match m {
+            Mu::VShort => {
+                p.opening.v.pop()?;
+            }
+            Mu::VLong => p.opening.v.push(Fr::zero()),
+            Mu::VEmpty => {
+                if p.opening.v.is_empty() {
+                    return None;
+                }
+                p.opening.v.clear()
+            }
+            Mu::VEntry => {
+                let i = range(rng, 0, p.opening.v.len().checked_sub(1)?);
+                p.opening.v[i] += rand_nonzero(rng);
+            }
+            Mu::WfShort => {
+                p.well_formedness.as_mut()?.pop()?;
+            }
+            Mu::WfLong => p.well_formedness.as_mut()?.push(Fr::zero()),
+            Mu::WfAbsent => {
+                p.well_formedness.as_ref()?;
+                p.well_formedness = None
+            }
+            Mu::WfToggleWhenOff => {
+                if wf_on {
+                    return None;
+                }
+                p.well_formedness = Some((0..range(rng, 0, 3)).map(|_| Fr::rand(rng)).collect());
+            }
+            Mu::WfEntry => {
+                let w = p.well_formedness.as_mut()?;
+                let i = range(rng, 0, w.len().checked_sub(1)?);
+                w[i] += rand_nonzero(rng);
+            }
+            Mu::ColsRepeat => {
+                if t < 2 {
+                    return None;
+                }
+                let i = range(rng, 1, t - 1);
+                if p.opening.columns[i] == p.opening.columns[0] {
+                    return None;
+                }
+                p.opening.columns[i] = p.opening.columns[0].clone();
+            }
+            Mu::ColsShift => {
+                if t < 2 {
+                    return None;
+                }
+                p.opening.columns.rotate_left(1);
+                if p.opening.columns == run.proof[k].opening.columns {
+                    return None;
+                }
+            }
+            Mu::ColsFewer => {
+                p.opening.columns.pop()?;
+            }
+            Mu::ColsMore => {
+                let c = p.opening.columns.first()?.clone();
+                p.opening.columns.push(c)
+            }
+            Mu::ColsNone => {
+                if t == 0 {
+                    return None;
+                }
+                p.opening.columns.clear()
+            }
+            Mu::ColEntry => {
+                let i = range(rng, 0, t.checked_sub(1)?);
+                let j = range(rng, 0, p.opening.columns[i].len().checked_sub(1)?);
+                p.opening.columns[i][j] += rand_nonzero(rng);
+            }
+            Mu::ColShorter => {
+                let i = range(rng, 0, t.checked_sub(1)?);
+                p.opening.columns[i].pop()?;
+            }
+            Mu::PathsFewer => {
+                p.opening.paths.pop()?;
+            }
+            Mu::PathsMore => {
+                let c = p.opening.paths.first()?.clone();
+                p.opening.paths.push(c)
+            }
+            Mu::PathsNone => {
+                if p.opening.paths.is_empty() {
+                    return None;
+                }
+                p.opening.paths.clear()
+            }
+            Mu::LeafIndex => {
+                let i = range(rng, 0, p.opening.paths.len().checked_sub(1)?);
+                p.opening.paths[i].leaf_index ^= 1;
+            }
+            Mu::LeafSibling => {
+                let i = range(rng, 0, p.opening.paths.len().checked_sub(1)?);
+                flip(&mut p.opening.paths[i].leaf_sibling_hash);
+            }
+            Mu::AuthSibling => {
+                let i = range(rng, 0, p.opening.paths.len().checked_sub(1)?);
+                let l = p.opening.paths[i].auth_path.len();
+                let j = range(rng, 0, l.checked_sub(1)?);
+                flip(&mut p.opening.paths[i].auth_path[j]);
+            }
+            Mu::AuthShorter => {
+                let i = range(rng, 0, p.opening.paths.len().checked_sub(1)?);
+                p.opening.paths[i].auth_path.pop()?;
+            }
+            Mu::PathOtherLeaf | Mu::PathOtherLeafReindexed => {
+                // the valid path of a different leaf of the same tree
+                let i = range(rng, 0, p.opening.paths.len().checked_sub(1)?);
+                let here = p.opening.paths[i].leaf_index;
+                let there = (here + 1 + range(rng, 0, n_ext.checked_sub(2)?)) % n_ext;
+                let tree = tree_of(&run.states[k].leaves);
+                let mut q: Path<crate::generic::MTConfig> = tree.generate_proof(there).ok()?;
+                if m == Mu::PathOtherLeafReindexed {
+                    q.leaf_index = here;
+                    if run.states[k].leaves[here] == run.states[k].leaves[there] && q.leaf_sibling_hash == p.opening.paths[i].leaf_sibling_hash && q.auth_path == p.opening.paths[i].auth_path {
+                        return None;
+                    }
+                }
+                p.opening.paths[i] = q;
+            }
+            Mu::PathOtherTree => {
+                let o = other?;
+                if o.comms[k].root == run.comms[k].root {
+                    return None;
+                }
+                let tree = tree_of(&o.states[k].leaves);
+                for q in p.opening.paths.iter_mut() {
+                    *q = tree.generate_proof(q.leaf_index).ok()?;
+                }
+                if p.opening.paths.is_empty() {
+                    return None;
+                }
+            }
+            Mu::PathsSwapped => {
+                let l = p.opening.paths.len();
+                if l < 2 {
+                    return None;
+                }
+                let j = (1..l).find(|j| p.opening.paths[*j].leaf_index != p.opening.paths[0].leaf_index)?;
+                p.opening.paths.swap(0, j);
+            }
+            Mu::ProofsFewer | Mu::ProofsMore => {}
+        }
+    }
+    match m {
+        Mu::ProofsFewer => {
+            proof.pop()?;
+        }
+        Mu::ProofsMore => {
+            let c = proof.first()?.clone();
+            proof.push(c)
+        }
+        _ => {}
+    }
+    Some(proof)
+}
+
+/// does the mutation leave a proof the verifier is allowed to accept for the *true* values?
+/// (extra trailing columns / paths / proofs and an unread well-formedness vector are never looked at)
+fn harmless(m: Mu) -> bool {
+    matches!(m, Mu::ColsMore | Mu::PathsMore | Mu::ProofsMore | Mu::WfToggleWhenOff)
+}
+
+fn other_run<S: Lc>(rng: &mut Rng, run: &Run<S>, spec: &Spec) -> Option<Run<S>> {
+    let vecs2: Vec<Vec<Fr>> = spec.sizes.iter().map(|s| gen_vec::<S>(rng, *s, 0)).collect();
+    honest::<S>(&run.pp, &vecs2, &run.point, &run.pre).ok()
+}
+
+fn c03<S: Lc>(ctx: &mut Ctx, id: &str, rng: &mut Rng, spec: &Spec) {
+    let c = match new_case::<S>(ctx, id, rng, spec) {
+        Some(c) => c,
+        None => return,
+    };
+    let run = &c.run;
+    let other = other_run::<S>(rng, run, spec);
+    let np = run.proof.len();
+    // (i) corrupted Merkle paths with an otherwise honest proof: must be refused (D5), also for the
+    // true values
+    for m in PATHS {
+        let k = range(rng, 0, np - 1);
+        let proof = match mutate::<S>(rng, run, other.as_ref(), k, *m) {
+            Some(p) => p,
+            None => continue,
+        };
+        let cid = format!("{}/path-{:?}", id, m);
+        let out = decide::<S>(ctx, &cid, &run.pp, &run.comms, &run.point, &run.values, &proof, &run.pre);
+        if out.accepted() {
+            ctx.rep.expect_fail(&cid, &format!("lincode/bad-path-accepted/{}/{:?}", S::NAME, m), "a Merkle path that does not authenticate the opened column at the transcript position was accepted", replay::<S>(&cid, ctx.seed, spec, &describe(run)));
+        }
+        ctx.rep.case(&format!("{} path mutation {:?}", describe(run), m), Some(format!("{}/path/{:?}/{:?}/{}", S::NAME, m, spec.sizes, spec.wf)));
+    }
+    // (i') the forgery D5 allowed: fabricated columns consistent with E(v'), honest paths
+    d5_forgery::<S>(ctx, id, rng, spec, run);
+    // (ii) the stretched-vector forgery of D6 (Reed–Solomon encoders)
+    if S::NAME != Bd::NAME {
+        d6_forgery::<S>(ctx, id, rng, spec, run);
+    }
+    // (iii) shapes and entries, for a false and for the true value
+    for m in SHAPE.iter().chain(ENTRIES) {
+        let k = range(rng, 0, np - 1);
+        let proof = match mutate::<S>(rng, run, other.as_ref(), k, *m) {
+            Some(p) => p,
+            None => continue,
+        };
+        let mut vals = run.values.clone();
+        let j = range(rng, 0, vals.len() - 1);
+        vals[j] += rand_nonzero(rng);
+        let cid = format!("{}/shape-{:?}-false", id, m);
+        let out = decide::<S>(ctx, &cid, &run.pp, &run.comms, &run.point, &vals, &proof, &run.pre);
+        false_accept::<S>(ctx, &cid, spec, &format!("false-claim-accepted/shape-{:?}", m), "malformed proof accepted for a false value", &out, true);
+        let cid = format!("{}/shape-{:?}-true", id, m);
+        let out = decide::<S>(ctx, &cid, &run.pp, &run.comms, &run.point, &run.values, &proof, &run.pre);
+        if out.accepted() && !harmless(*m) {
+            // v / wf / columns are bound by the transcript and the column tests
+            ctx.rep.expect_fail(&cid, &format!("lincode/malformed-accepted/{}/{:?}", S::NAME, m), "a proof with a changed component was accepted", replay::<S>(&cid, ctx.seed, spec, &describe(run)));
+        }
+        ctx.rep.case(&format!("{} shape mutation {:?}", describe(run), m), Some(format!("{}/shape/{:?}/{:?}/{}", S::NAME, m, spec.sizes, spec.wf)));
+    }
+}
+
+/// D5: with the bool of `Path::verify` dropped, a prover who knows the commitment's columns can prove
+/// any value: change `v`, fabricate columns that satisfy the inner-product tests against `E(v')` (and
+/// the honest well-formedness vector), attach the honest paths of those positions.
+fn d5_forgery<S: Lc>(ctx: &mut Ctx, id: &str, rng: &mut Rng, spec: &Spec, run: &Run<S>) {
+    let cid = format!("{}/d5-forgery", id);
+    let c = &run.comms[0];
+    let st = &run.states[0];
+    let p0 = &run.proof[0];
+    let (n, m) = (c.metadata.n_rows, c.metadata.n_cols);
+    let wf = run.pp.check_well_formedness();
+    let (a, b) = match tensor::<S>(&run.point, m, n) {
+        Ok(x) => x,
+        Err(_) => return,
+    };
+    let mut v2 = p0.opening.v.clone();
+    if v2.is_empty() {
+        return;
+    }
+    v2[0] += rand_nonzero(rng);
+    let value2 = inner(&v2, &a);
+    let (r, idx, _) = match transcript::<S>(&run.pp, c, &run.point, &v2, &p0.well_formedness, &run.pre) {
+        Some(x) => x,
+        None => return,
+    };
+    let w2 = match encode::<S>(&run.pp, &v2) {
+        Some(w) => w,
+        None => return,
+    };
+    // direction that changes <b, col> but not <r, col>
+    let mut u = vec![Fr::zero(); n];
+    if wf {
+        if n < 2 {
+            ctx.rep.count(&format!("{}/d5-forgery-skipped-one-row", S::NAME));
+            return;
+        }
+        u[0] = r[1];
+        u[1] = -r[0];
+    } else {
+        u[0] = one();
+    }
+    let bu = inner(&b, &u);
+    if bu.is_zero() {
+        return;
+    }
+    let tree = tree_of(&st.leaves);
+    let mut cols = vec![];
+    let mut paths = vec![];
+    for q in &idx {
+        let col: Vec<Fr> = (0..n).map(|i| st.ext_mat.entries[i][*q]).collect();
+        let alpha = (w2[*q] - inner(&b, &col)) * bu.inverse().unwrap();
+        cols.push(col.iter().zip(&u).map(|(x, y)| *x + alpha * *y).collect::<Vec<Fr>>());
+        paths.push(tree.generate_proof(*q).unwrap());
+    }
+    let mut proof = run.proof.clone();
+    proof[0] = MProof { opening: MProofSingle { paths, v: v2.clone(), columns: cols.clone() }, well_formedness: p0.well_formedness.clone() };
+    let mut vals = run.values.clone();
+    vals[0] = value2;
+    // everything the pre-fix verifier looked at is consistent: positions, inner products, value
+    let wwf = p0.well_formedness.as_ref().and_then(|w| encode::<S>(&run.pp, w));
+    let consistent = idx.iter().zip(&cols).all(|(q, col)| inner(&b, col) == w2[*q] && (!wf || wwf.as_ref().map(|ww| inner(&r, col) == ww[*q]).unwrap_or(false)));
+    if consistent {
+        ctx.rep.count(&format!("{}/d5-forgery-consistent-except-path-verify", S::NAME));
+    }
+    let out = decide::<S>(ctx, &cid, &run.pp, &run.comms, &run.point, &vals, &proof, &run.pre);
+    if out.accepted() && value2 != run.values[0] {
+        ctx.rep.expect_fail(&cid, &format!("lincode/bad-path-accepted/{}/forgery", S::NAME), "fabricated columns with paths that do not authenticate them proved a false value", replay::<S>(&cid, ctx.seed, spec, &describe(run)));
+    }
+    ctx.rep.case(&format!("{} D5 forgery", describe(run)), Some(format!("{}/d5/{:?}/{}", S::NAME, spec.sizes, spec.wf)));
+}
+
+/// D6: `v'[2i] = v[i], v'[2i+1] = 0` (same for the well-formedness vector) encodes over the doubled
+/// FFT domain to the same column entries; columns and *valid* paths for the re-derived positions;
+/// claimed value `<v'[..n_cols], a>`.
+fn d6_forgery<S: Lc>(ctx: &mut Ctx, id: &str, _rng: &mut Rng, spec: &Spec, run: &Run<S>) {
+    let cid = format!("{}/d6-forgery", id);
+    let c = &run.comms[0];
+    let st = &run.states[0];
+    let p0 = &run.proof[0];
+    let (n, m) = (c.metadata.n_rows, c.metadata.n_cols);
+    let wf = run.pp.check_well_formedness();
+    let (a, b) = match tensor::<S>(&run.point, m, n) {
+        Ok(x) => x,
+        Err(_) => return,
+    };
+    let stretch = |v: &Vec<Fr>| -> Vec<Fr> { v.iter().flat_map(|x| [*x, Fr::zero()]).collect() };
+    let v2 = stretch(&p0.opening.v);
+    let wf2 = p0.well_formedness.as_ref().map(stretch);
+    // sanity of the transcript replica: on the honest vectors it reproduces the honest positions
+    match transcript::<S>(&run.pp, c, &run.point, &p0.opening.v, &p0.well_formedness, &run.pre) {
+        Some((_, idx0, _)) if idx0 == p0.opening.paths.iter().map(|q| q.leaf_index).collect::<Vec<_>>() => {}
+        _ => {
+            ctx.rep.notes.push(format!("{}: transcript replica does not reproduce the honest positions", cid));
+            return;
+        }
+    }
+    let (r, idx, _) = match transcript::<S>(&run.pp, c, &run.point, &v2, &wf2, &run.pre) {
+        Some(x) => x,
+        None => return,
+    };
+    let tree = tree_of(&st.leaves);
+    let cols: Vec<Vec<Fr>> = idx.iter().map(|q| (0..n).map(|i| st.ext_mat.entries[i][*q]).collect()).collect();
+    let paths: Vec<_> = idx.iter().map(|q| tree.generate_proof(*q).unwrap()).collect();
+    let value2 = inner(&v2[..m.min(v2.len())], &a);
+    let mut proof = run.proof.clone();
+    proof[0] = MProof { opening: MProofSingle { paths: paths.clone(), v: v2.clone(), columns: cols.clone() }, well_formedness: wf2.clone() };
+    let mut vals = run.values.clone();
+    vals[0] = value2;
+    // every test of the verifier other than the two length tests passes on this proof
+    let ev = encode::<S>(&run.pp, &v2);
+    let ewf = wf2.as_ref().and_then(|w| encode::<S>(&run.pp, w));
+    let passes = match &ev {
+        Some(ev) => idx.iter().zip(&cols).zip(&paths).all(|((q, col), path)| {
+            *q < ev.len()
+                && inner(&b, col) == ev[*q]
+                && (!wf || ewf.as_ref().map(|e| *q < e.len() && inner(&r, col) == e[*q]).unwrap_or(false))
+                && path.leaf_index == *q
+                && path.verify(&(), &(), &c.root, col_hash(col)).unwrap_or(false)
+        }),
+        None => false,
+    };
+    if passes {
+        ctx.rep.count(&format!("{}/d6-forgery-passes-every-test-but-length", S::NAME));
+    } else {
+        ctx.rep.count(&format!("{}/d6-forgery-not-consistent", S::NAME));
+    }
+    let out = decide::<S>(ctx, &cid, &run.pp, &run.comms, &run.point, &vals, &proof, &run.pre);
+    if value2 != run.values[0] {
+        ctx.rep.count(&format!("{}/d6-forgery-false-claim", S::NAME));
+    }
+    if out.accepted() && value2 != run.values[0] {
+        ctx.rep.expect_fail(&cid, &format!("lincode/stretched-v-accepted/{}", S::NAME), "a vector of length 2*n_cols with valid columns and paths proved a false value", replay::<S>(&cid, ctx.seed, spec, &describe(run)));
+    }
+    if out.accepted() && !v2.is_empty() && m > 0 {
+        ctx.rep.expect_fail(&cid, &format!("lincode/stretched-v-accepted/{}/any", S::NAME), "an opening vector of length 2*n_cols was accepted", replay::<S>(&cid, ctx.seed, spec, &describe(run)));
+    }
+    ctx.rep.case(&format!("{} D6 forgery", describe(run)), Some(format!("{}/d6/{:?}/{}", S::NAME, spec.sizes, spec.wf)));
+}
+
+// ------------------------------------------------------------------------------------------------
+// C08
+// ------------------------------------------------------------------------------------------------
+
+fn c08<S: Lc>(ctx: &mut Ctx, id: &str, rng: &mut Rng, spec: &Spec) {
+    let c = match new_case::<S>(ctx, id, rng, spec) {
+        Some(c) => c,
+        None => return,
+    };
+    let run = &c.run;
+    for (i, cm) in run.comms.iter().enumerate() {
+        let vec = S::L::poly_to_vec(run.polys[i].polynomial());
+        match own_ext_columns::<S>(&run.pp, &vec) {
+            Some((n, m, cols)) => {
+                let leaves: Vec<Vec<u8>> = cols.iter().map(|c| own_col_hash(c)).collect();
+                let root = own_merkle_root(&leaves);
+                if (n, m, cols.len()) != (cm.metadata.n_rows, cm.metadata.n_cols, cm.metadata.n_ext_cols) {
+                    ctx.rep.expect_fail(id, &format!("{}/metadata-not-the-matrix-shape", S::NAME), "commitment metadata differ from (n, m, codeword length)", replay::<S>(id, ctx.seed, spec, &describe(run)));
+                }
+                if root != cm.root {
+                    ctx.rep.expect_fail(id, &format!("{}/root-not-merkle-root-of-column-hashes", S::NAME), "commitment root differs from the independently recomputed Merkle root", replay::<S>(id, ctx.seed, spec, &describe(run)));
+                }
+                if leaves != run.states[i].leaves {
+                    ctx.rep.expect_fail(id, &format!("{}/leaves-not-column-hashes", S::NAME), "state leaves differ from the column hashes of the encoded matrix", replay::<S>(id, ctx.seed, spec, &describe(run)));
+                }
+            }
+            None => ctx.rep.expect_fail(id, &format!("{}/encode-refused-a-row", S::NAME), "public encode refused a row of the coefficient matrix", replay::<S>(id, ctx.seed, spec, &describe(run))),
+        }
+    }
+    // a function of (polynomial, parameters) only: a second commit (other sponge, other order of
+    // calls) gives the same commitments; another polynomial gives another root
+    if let Ok(again) = honest::<S>(&run.pp, &run.vecs, &run.point, &seeded_sponge(rng)) {
+        if again.comms != run.comms {
+            ctx.rep.expect_fail(id, &format!("{}/commit-not-deterministic", S::NAME), "two commits to the same polynomial differ", replay::<S>(id, ctx.seed, spec, &describe(run)));
+        }
+    }
+    if let Some(o) = other_run::<S>(rng, run, spec) {
+        for i in 0..run.comms.len() {
+            let same_poly = S::L::poly_to_vec(o.polys[i].polynomial()) == S::L::poly_to_vec(run.polys[i].polynomial());
+            if !same_poly && o.comms[i].root == run.comms[i].root {
+                ctx.rep.expect_fail(id, &format!("{}/distinct-polynomials-same-root", S::NAME), "two different polynomials of the same shape have the same root", replay::<S>(id, ctx.seed, spec, &describe(run)));
+            }
+        }
+    }
+    // the model's columns for the committed matrix (open_alg with every position) are the state's
+    ask_open::<S>(ctx, id, run);
+    ctx.rep.case(&describe(run), Some(format!("{}/{:?}/{}/{}", S::NAME, spec.sizes, spec.sec, spec.kind)));
+}
+
+// ------------------------------------------------------------------------------------------------
+// C10: single-fault neighbourhood, decisions equal the model's
+// ------------------------------------------------------------------------------------------------
+
+fn c10<S: Lc>(ctx: &mut Ctx, id: &str, rng: &mut Rng, spec: &Spec) {
+    let c = match new_case::<S>(ctx, id, rng, spec) {
+        Some(c) => c,
+        None => return,
+    };
+    let run = &c.run;
+    let other = other_run::<S>(rng, run, spec);
+    let np = run.proof.len();
+    let out = decide::<S>(ctx, &format!("{}/honest", id), &run.pp, &run.comms, &run.point, &run.values, &run.proof, &run.pre);
+    if !out.accepted() {
+        ctx.rep.expect_fail(id, &format!("{}/honest-rejected", S::NAME), "honest proof not accepted", replay::<S>(id, ctx.seed, spec, &describe(run)));
+    }
+    // statement components
+    let k = range(rng, 0, np - 1);
+    {
+        let mut vals = run.values.clone();
+        vals[k] = Fr::rand(rng);
+        let cid = format!("{}/value", id);
+        let out = decide::<S>(ctx, &cid, &run.pp, &run.comms, &run.point, &vals, &run.proof, &run.pre);
+        false_accept::<S>(ctx, &cid, spec, "false-claim-accepted/value", "random value accepted", &out, vals != run.values);
+    }
+    {
+        let mut pt = run.point.clone();
+        let i = range(rng, 0, pt.len() - 1);
+        pt[i] = Fr::rand(rng);
+        let _ = decide::<S>(ctx, &format!("{}/point", id), &run.pp, &run.comms, &pt, &run.values, &run.proof, &run.pre);
+    }
+    {
+        let mut cs = run.comms.clone();
+        flip(&mut cs[k].root);
+        let cid = format!("{}/root", id);
+        let out = decide::<S>(ctx, &cid, &run.pp, &cs, &run.point, &run.values, &run.proof, &run.pre);
+        if out.accepted() && !run.proof[k].opening.columns.is_empty() {
+            ctx.rep.expect_fail(&cid, &format!("lincode/other-root-accepted/{}", S::NAME), "proof accepted against a changed root", replay::<S>(&cid, ctx.seed, spec, &describe(run)));
+        }
+    }
+    for (name, f) in [
+        ("nrows+1", (|m: &mut MMetadata| m.n_rows += 1) as fn(&mut MMetadata)),
+        ("nrows-1", |m: &mut MMetadata| m.n_rows = m.n_rows.saturating_sub(1)),
+        ("ncols+1", |m: &mut MMetadata| m.n_cols += 1),
+        ("ncols-1", |m: &mut MMetadata| m.n_cols = m.n_cols.saturating_sub(1)),
+        ("next*2", |m: &mut MMetadata| m.n_ext_cols *= 2),
+        ("next/2", |m: &mut MMetadata| m.n_ext_cols /= 2),
+    ] {
+        let mut cs = run.comms.clone();
+        f(&mut cs[k].metadata);
+        if cs[k].metadata.n_ext_cols == 0 || cs[k].metadata.n_cols == 0 {
+            continue;
+        }
+        let _ = decide::<S>(ctx, &format!("{}/meta-{}", id, name), &run.pp, &cs, &run.point, &run.values, &run.proof, &run.pre);
+    }
+    // proof components
+    for m in ENTRIES.iter().chain(PATHS).chain(SHAPE) {
+        let k = range(rng, 0, np - 1);
+        let proof = match mutate::<S>(rng, run, other.as_ref(), k, *m) {
+            Some(p) => p,
+            None => continue,
+        };
+        let cid = format!("{}/{:?}", id, m);
+        let out = decide::<S>(ctx, &cid, &run.pp, &run.comms, &run.point, &run.values, &proof, &run.pre);
+        if out.accepted() && !harmless(*m) {
+            ctx.rep.expect_fail(&cid, &format!("lincode/single-fault-accepted/{}/{:?}", S::NAME, m), "a proof with one changed component was accepted", replay::<S>(&cid, ctx.seed, spec, &describe(run)));
+        }
+    }
+    // fewer values than commitments: only the zipped positions are examined
+    if np > 1 {
+        let vals: Vec<Fr> = run.values[..np - 1].to_vec();
+        let _ = decide::<S>(ctx, &format!("{}/values-fewer", id), &run.pp, &run.comms, &run.point, &vals, &run.proof, &run.pre);
+    }
+    ctx.rep.case(&describe(run), Some(format!("{}/{:?}/{}/{}", S::NAME, spec.sizes, spec.wf, spec.sec)));
+}
+
+// ------------------------------------------------------------------------------------------------
+// C19: shapes and serialized sizes
+// ------------------------------------------------------------------------------------------------
+
+fn c19<S: Lc>(ctx: &mut Ctx, id: &str, rng: &mut Rng, spec: &Spec) {
+    let c = match new_case::<S>(ctx, id, rng, spec) {
+        Some(c) => c,
+        None => return,
+    };
+    let run = &c.run;
+    const FE: usize = 32; // compressed field element
+    const DIG: usize = 8 + 32; // length-prefixed 32-byte digest
+    let mut total = 8usize;
+    for (i, (cm, p)) in run.comms.iter().zip(&run.proof).enumerate() {
+        let (n, m, k) = (cm.metadata.n_rows, cm.metadata.n_cols, cm.metadata.n_ext_cols);
+        let t = match calc_t::<S>(&run.pp, k) {
+            Some(t) => t,
+            None => continue,
+        };
+        let depth = k.next_power_of_two().trailing_zeros() as usize;
+        let mut bad = vec![];
+        if p.opening.columns.len() != t {
+            bad.push(format!("columns {} != t {}", p.opening.columns.len(), t));
+        }
+        if p.opening.paths.len() != t {
+            bad.push(format!("paths {} != t {}", p.opening.paths.len(), t));
+        }
+        if p.opening.v.len() != m {
+            bad.push(format!("v {} != n_cols {}", p.opening.v.len(), m));
+        }
+        if p.opening.columns.iter().any(|c| c.len() != n) {
+            bad.push("a column is not n_rows long".to_string());
+        }
+        if p.opening.paths.iter().any(|q| q.auth_path.len() + 1 != depth) {
+            bad.push(format!("a path is not {} deep", depth));
+        }
+        match (&p.well_formedness, run.pp.check_well_formedness()) {
+            (Some(w), true) if w.len() == m => {}
+            (None, false) => {}
+            _ => bad.push("well-formedness vector absent / present / of the wrong length".to_string()),
+        }
+        if !bad.is_empty() {
+            ctx.rep.expect_fail(id, &format!("{}/proof-shape", S::NAME), &format!("polynomial {}: {}", i, bad.join("; ")), replay::<S>(id, ctx.seed, spec, &describe(run)));
+        }
+        // the model's size function: shape × primitive sizes
+        // a path: leaf sibling (the padding leaf is the empty byte string: no digest bytes), the
+        // inner siblings, the position
+        let paths_bytes: usize = p
+            .opening
+            .paths
+            .iter()
+            .map(|q| (if (q.leaf_index ^ 1) < k { DIG } else { 8 }) + 8 + (depth - 1) * DIG + 8)
+            .sum();
+        let single = (8 + paths_bytes) + (8 + m * FE) + (8 + t * (8 + n * FE));
+        let wfsz = if run.pp.check_well_formedness() { 1 + 8 + m * FE } else { 1 };
+        total += single + wfsz;
+        let csize = conv::<MComm, Comm<S>>(cm).serialized_size(Compress::Yes);
+        if csize != 3 * 8 + DIG {
+            ctx.rep.expect_fail(id, &format!("{}/commitment-size", S::NAME), &format!("commitment has {} bytes, expected {}", csize, 3 * 8 + DIG), replay::<S>(id, ctx.seed, spec, &describe(run)));
+        }
+        ctx.rep.count(&format!("{}/t-{}", S::NAME, if t == k { "all-columns" } else { "proper-subset" }));
+    }
+    let real: RealProof = run.proof.iter().map(|p| conv(p)).collect();
+    let measured = real.serialized_size(Compress::Yes);
+    if measured != total {
+        ctx.rep.expect_fail(id, &format!("{}/proof-size", S::NAME), &format!("proof has {} bytes, the shape gives {}", measured, total), replay::<S>(id, ctx.seed, spec, &describe(run)));
+    }
+    // the model's shapes (columns, path depths, positions) for the same transcript
+    ask_open::<S>(ctx, id, run);
+    let _ = rng;
+    ctx.rep.case(&format!("{} proof bytes {}", describe(run), measured), Some(format!("{}/{:?}/{}/{}", S::NAME, spec.sizes, spec.wf, spec.sec)));
 }
